@@ -106,6 +106,41 @@ theorem storeVals_mem (v v' : Nat → Option Val) (rs : List Nat) (o : List Rat)
       | head => exact absurd rfl hm
       | tail _ h' => exact h'
 
+theorem applyGate1_congr {v v' : Nat → Option Val} (free : String → Option Rat) (c : Cmd)
+    (h : ∀ m ∈ c.pars.filterMap Par.dep, v m = v' m) : applyGate1 free v c = applyGate1 free v' c := by
+  unfold applyGate1
+  cases hg : gateArgs c.pars c.dagger with
+  | none => rfl
+  | some ps =>
+    simp only
+    rw [evalPars_congr free ps (by rw [deps_gateArgs _ _ _ hg]; exact h)]
+
+theorem applyGates_congr {v v' : Nat → Option Val} (free : String → Option Rat) (l : List Cmd)
+    (h : ∀ x ∈ l, ∀ m ∈ x.pars.filterMap Par.dep, v m = v' m) : applyGates free v l = applyGates free v' l := by
+  induction l with
+  | nil => rfl
+  | cons c rest ih =>
+    simp only [applyGates]
+    rw [applyGate1_congr free c (h c (List.mem_cons_self ..)), ih (fun x hx => h x (List.mem_cons_of_mem _ hx))]
+
+theorem mzDaggerSeq_deps (pin pex : Par) (a b : Nat) :
+    ∀ x ∈ mzDaggerSeq pin pex a b, ∀ m ∈ x.pars.filterMap Par.dep, m ∈ [pin, pex].filterMap Par.dep := by
+  intro x hx m hm
+  simp only [mzDaggerSeq, List.mem_cons, List.not_mem_nil, or_false] at hx
+  rcases hx with rfl | rfl | rfl | rfl
+  · simp [Par.dep] at hm
+  · simp only [List.filterMap_cons, List.filterMap_nil] at hm ⊢
+    cases hd : pin.dep with
+    | none => simp [hd] at hm
+    | some k => simp [hd] at hm ⊢; exact Or.inl hm
+  · simp [Par.dep] at hm
+  · simp only [List.filterMap_cons, List.filterMap_nil] at hm ⊢
+    cases hd : pex.dep with
+    | none => simp [hd] at hm
+    | some k =>
+      simp only [hd, List.mem_cons, List.not_mem_nil, or_false] at hm
+      cases pin.dep <;> simp [hm]
+
 /-- two run states are similar w.r.t. a set `D` of modes: same position in the outcome stream and the
 same measured values on `D` -/
 def Sim (D : List Nat) (a b : RunSt) : Prop := a.mpos = b.mpos ∧ ∀ m ∈ D, a.vals m = b.vals m
@@ -136,18 +171,18 @@ theorem applyCmd_sim (free : String → Option Rat) (outc : Nat → List Rat) (c
   cases hk : c.kind with
   | gate =>
     simp only
-    cases hg : gateArgs c.pars c.dagger with
-    | none => exact ⟨rfl, hpos, fun m hm => hD m hm (by simp [hk])⟩
-    | some ps =>
-      simp only
-      rw [evalPars_congr free ps (by rw [deps_gateArgs _ _ _ hg]; exact hdeps)]
-      cases evalPars st'.vals free ps with
+    have hst : ∀ m ∈ D, st.vals m = st'.vals m := fun m hm => hD m hm (by simp [hk])
+    split
+    · rename_i pin pex a b hmz hp hr
+      rw [applyGates_congr free (mzDaggerSeq pin pex a b) (fun x hx m hm => hdeps m (by
+        rw [hp]; exact mzDaggerSeq_deps pin pex a b x hx m hm))]
+      cases applyGates free st'.vals (mzDaggerSeq pin pex a b) with
       | error e => exact rfl
-      | ok args =>
-        simp only
-        cases mkCall c.cls args c with
-        | error e => exact rfl
-        | ok call => exact ⟨rfl, hpos, fun m hm => hD m hm (by simp [hk])⟩
+      | ok t => exact ⟨rfl, hpos, hst⟩
+    · rw [applyGate1_congr free c hdeps]
+      cases applyGate1 free st'.vals c with
+      | error e => exact rfl
+      | ok t => exact ⟨rfl, hpos, hst⟩
   | plain =>
     simp only
     rw [evalPars_congr free c.pars hdeps]
